@@ -353,7 +353,12 @@ theorem invF_run {s s' : St} (h : InvF s) (t : Tid) (hs : stepRun s t = some s')
   cases pc <;> simp only [] at hs
   case idle => cases hs
   case c1 => cases hs; frame_keep h t hpc doC1
-  case c2 => cases hs; frame_keep_ite h t hpc doC2
+  case c2 =>
+    cases hs
+    simp only [doC2]
+    split
+    · frame_keep h t hpc setLoc_loc_self
+    · frame_keep_ite h t hpc setLoc_loc_self
   case c3 => cases hs; frame_keep h t hpc doC3
   case w0 => cases hs; frame_keep_ite h t hpc doW0
   case s0 => cases hs; frame_keep h t hpc doS0
@@ -403,10 +408,30 @@ theorem invF_run {s s' : St} (h : InvF s) (t : Tid) (hs : stepRun s t = some s')
     cases hs
     simp only [doD0]
     split
-    · rename_i hdat
-      refine invF_thread h t rfl rfl rfl rfl (fun u hu => by simp [hu]) (Or.inl ?_)
-      simp [leaveServe, hdat]
     · frame_keep h t hpc setLoc_loc_self
+    · rename_i hdat
+      split
+      · split
+        · refine invF_thread h t rfl rfl rfl rfl (fun u hu => by simp [hu]) (Or.inl ?_)
+          simp [hdat]
+        · refine invF_thread h t rfl rfl rfl rfl (fun u hu => by simp [hu]) (Or.inl ?_)
+          simp [hdat]
+      · refine invF_thread h t rfl rfl rfl rfl (fun u hu => by simp [hu]) (Or.inl ?_)
+        simp [leaveServe, hdat]
+  case x0 =>
+    have hdat : (s.loc t).data = none := by
+      cases hd : (s.loc t).data with
+      | none => rfl
+      | some f =>
+        have := h.data_pc t f hd
+        simp [hpc, PC.holding, PC.completing] at this
+    cases hs
+    simp only [doX0]
+    split
+    · refine invF_thread h t rfl rfl rfl rfl (fun u hu => by simp [hu]) (Or.inl ?_)
+      simp [hdat]
+    · refine invF_thread h t rfl rfl rfl rfl (fun u hu => by simp [hu]) (Or.inl ?_)
+      simp [hdat]
   case d2 =>
     simp only [doD2] at hs
     split at hs
@@ -432,13 +457,17 @@ theorem invF_run {s s' : St} (h : InvF s) (t : Tid) (hs : stepRun s t = some s')
   case p0 =>
     simp only [doP0] at hs
     split at hs
-    · rename_i f rest hc
-      cases hs
-      exact invF_recv h t f rest hc (by simp [hpc, PC.holding]) rfl rfl rfl rfl
-        (fun u hu => by simp [hu]) (by simp [PC.holding])
+    · cases hs; frame_drop h t hpc
     · split at hs
-      · cases hs; frame_drop h t hpc
-      · cases hs
+      · rename_i f rest hc
+        cases hs
+        exact invF_recv h t f rest hc (by simp [hpc, PC.holding]) rfl rfl rfl rfl
+          (fun u hu => by simp [hu]) (by simp [PC.holding])
+      · split at hs
+        · cases hs; frame_drop h t hpc
+        · split at hs
+          · cases hs; frame_drop h t hpc
+          · cases hs
   case d1 =>
     simp only [doD1] at hs
     split at hs
@@ -482,6 +511,12 @@ theorem invF_step {s s' : St} (a : Actor) (h : InvF s) (hs : step s a = some s')
     simp only [step] at hs
     split at hs
     · cases hs; exact invF_peer h q exc v
+    · cases hs
+  | peerEof =>
+    simp only [step] at hs
+    split at hs
+    · cases hs
+      exact invF_thread h 0 rfl rfl rfl rfl (fun _ _ => rfl) (Or.inl ⟨rfl, fun _ => ⟨rfl, rfl⟩⟩)
     · cases hs
   | tick d =>
     simp only [step] at hs
